@@ -327,7 +327,7 @@ pub fn shrink_case(mut case: Case, first: &Outcome, budget: usize) -> (Case, Out
                     continue;
                 }
             }
-            if let crate::rt::Policy::Stall { victim, .. } | crate::rt::Policy::Burst { reader: victim, .. } = &case.spec.policy {
+            if let crate::rt::Policy::Stall { victim, .. } | crate::rt::Policy::AbaStall { victim, .. } | crate::rt::Policy::Burst { reader: victim, .. } = &case.spec.policy {
                 if *victim as usize >= t {
                     continue;
                 }
@@ -531,8 +531,12 @@ pub fn worker(id: &str, widx: u64, ncases: usize, seed: u64, outdir: &str) -> i3
     install();
     let check = e1_check(id).expect("unknown E1 check");
     let findings = load_findings();
+    let mut dumped = 0usize;
     let mut runner = TestRunner::new_with_rng(Config { failure_persistence: None, ..Config::default() }, TestRng::from_seed(RngAlgorithm::ChaCha, &seed_bytes(seed, widx, id)));
-    let strat = case_strategy(&check.profile);
+    let strat = match check.template {
+        Some(f) => f(),
+        None => case_strategy(&check.profile),
+    };
     let mut res = WorkerResult::default();
     let mut seen: HashSet<u64> = HashSet::new();
     let logp = format!("{}/w{}.last", outdir, widx);
@@ -571,6 +575,17 @@ pub fn worker(id: &str, widx: u64, ncases: usize, seed: u64, outdir: &str) -> i3
         if out.budget {
             res.discarded_budget += 1;
             continue;
+        }
+        if let Ok(name) = std::env::var("VCHECK_DUMP_STAT") {
+            // debugging aid: keep a few cases in which the named counters (comma separated) are all non-zero
+            let sv = serde_json::to_value(&out.stats).unwrap();
+            if dumped < 5 && name.split(',').all(|n| sv.get(n).and_then(|v| v.as_u64()).unwrap_or(0) > 0) {
+                dumped += 1;
+                let rp = Replay { property: id.into(), oracle: "dump".into(), msg: name.clone(), engine: "E1".into(), tree_rev: String::new(), case: case.clone() };
+                let dir = format!("{}/work/dump", verif_dir());
+                let _ = std::fs::create_dir_all(&dir);
+                let _ = std::fs::write(format!("{}/{}-w{}-{}.json", dir, id, widx, dumped), serde_json::to_string(&rp).unwrap());
+            }
         }
         if let Some(f) = &out.fail {
             if let Some(k) = match_open(&findings, f) {
@@ -1161,7 +1176,10 @@ pub fn parent(id: &str, tier: &str) -> i32 {
 pub fn determinism_selftest(n: usize) -> (usize, usize) {
     let check = e1_check("C01").unwrap();
     let mut runner = TestRunner::new_with_rng(Config { failure_persistence: None, ..Config::default() }, TestRng::from_seed(RngAlgorithm::ChaCha, &seed_bytes(7, 7, "determinism")));
-    let strat = case_strategy(&check.profile);
+    let strat = match check.template {
+        Some(f) => f(),
+        None => case_strategy(&check.profile),
+    };
     let mut same = 0;
     for _ in 0..n {
         let case = strat.new_tree(&mut runner).unwrap().current();
